@@ -714,10 +714,9 @@ Module NeedsOpsKnown.
                 end).
     { destruct (decode_code c1 code1 ks1) as [d|] eqn:E; [|exact I].
       destruct (mapM_cd _ (normalize d)) as [d'|] eqn:E'; [|exact I].
-      apply (H c1 code1 ks1 d d'); try (vm_compute; reflexivity); try exact E; try exact E'.
-      - discriminate.
-      - vm_compute. reflexivity.
-      - vm_compute. reflexivity. }
+      apply (H c1 code1 ks1 d d');
+        [vm_compute; reflexivity|discriminate|vm_compute; reflexivity|vm_compute; reflexivity
+        |vm_compute; reflexivity|exact E|exact E'|vm_compute; reflexivity]. }
     vm_compute in X. discriminate X.
   Qed.
 End NeedsOpsKnown.
